@@ -1,8 +1,10 @@
 /-
-  C14 — reviewed allow-list of the write sites reachable from the read-only API whose receiver is not a local
-  variable of the function itself (generated inventory: `Gen.readOnlyWriteSites`).  Every entry was reviewed:
-  the receiver is an object created during the same API call, never the document, a token, a module constant
-  or an option object passed in by the caller.  A new site breaks `C14_write_sites`.
+  C14 — reviewed allow-list of the write sites reachable from the read-only API whose receiver may be visible outside
+  the call: parameters, self, globals, and locals that may alias them (generated inventory: `Gen.readOnlyWriteSites`;
+  a local counts as private only when every value assigned to it is certainly a new object; in-place operators such as
+  `|=` on possibly shared names are sites too).  Every entry was reviewed: the receiver is an object created during the
+  same API call (or an immutable value), never the document, a token, a module constant or an argument of the caller.
+  A new site breaks `C14_write_sites`.
 -/
 import KernModel.Basic
 namespace KM.C14
@@ -43,6 +45,8 @@ def allowList : List Str := [
   ['e','x','p','o','r','t','e','r','.','E','x','p','o','r','t','O','p','t','i','o','n','s','.','_','_','i','n','i','t','_','_',':',' ','s','e','l','f','.','t','o','k','e','n','_','c','a','t','e','g','o','r','i','e','s',' ','='],
   -- exporter.Exporter.append_row: row.append()    [the row list is created by export_string for each stage]
   ['e','x','p','o','r','t','e','r','.','E','x','p','o','r','t','e','r','.','a','p','p','e','n','d','_','r','o','w',':',' ','r','o','w','.','a','p','p','e','n','d','(',')'],
+  -- exporter.Exporter.export_string: row.append()    [row is either the fresh list of this stage or an element of the local list of rows built in this call]
+  ['e','x','p','o','r','t','e','r','.','E','x','p','o','r','t','e','r','.','e','x','p','o','r','t','_','s','t','r','i','n','g',':',' ','r','o','w','.','a','p','p','e','n','d','(',')'],
   -- gkern.Clef.__init__: self.diatonic_pitch =    [constructor / property setter of an object created inside the call]
   ['g','k','e','r','n','.','C','l','e','f','.','_','_','i','n','i','t','_','_',':',' ','s','e','l','f','.','d','i','a','t','o','n','i','c','_','p','i','t','c','h',' ','='],
   -- gkern.Clef.__init__: self.on_line =    [constructor / property setter of an object created inside the call]
@@ -78,7 +82,9 @@ def allowList : List Str := [
   -- tokenizers.AKernTokenizer.__init__: self.last_clef =    [constructor / property setter of an object created inside the call]
   ['t','o','k','e','n','i','z','e','r','s','.','A','K','e','r','n','T','o','k','e','n','i','z','e','r','.','_','_','i','n','i','t','_','_',':',' ','s','e','l','f','.','l','a','s','t','_','c','l','e','f',' ','='],
   -- tokenizers.Tokenizer.__init__: self.token_categories =    [constructor / property setter of an object created inside the call]
-  ['t','o','k','e','n','i','z','e','r','s','.','T','o','k','e','n','i','z','e','r','.','_','_','i','n','i','t','_','_',':',' ','s','e','l','f','.','t','o','k','e','n','_','c','a','t','e','g','o','r','i','e','s',' ','=']
+  ['t','o','k','e','n','i','z','e','r','s','.','T','o','k','e','n','i','z','e','r','.','_','_','i','n','i','t','_','_',':',' ','s','e','l','f','.','t','o','k','e','n','_','c','a','t','e','g','o','r','i','e','s',' ','='],
+  -- tokens.NoteRestToken.export: content Add=    [content is a str (immutable): += rebinds the local name]
+  ['t','o','k','e','n','s','.','N','o','t','e','R','e','s','t','T','o','k','e','n','.','e','x','p','o','r','t',':',' ','c','o','n','t','e','n','t',' ','A','d','d','=']
 ]
 
 end KM.C14
